@@ -35,6 +35,7 @@ GENERATORS = [
     ('gen_clo.py', 'CloGen.v', 'translate-clo'),
     ('gen_args.py', 'ArgGen.v', 'translate-args'),
     ('gen_reader.py', 'ReadGen.v', 'translate-reader'),
+    ('gen_views.py', 'ViewGen.v', 'translate-views'),
 ]
 # properties whose theorems are about the reader model (the others quantify
 # over arbitrary trees / lists / buffers)
@@ -45,6 +46,7 @@ GEN_PROPS = {
     'translate-clo': (('C13',), 'C13clogen.v'),
     'translate-args': (('C18',), 'C18gen.v'),
     'translate-reader': (READER_PROPS, 'ReadGen.v'),
+    'translate-views': (('C03', 'C04'), ('C03gen.v', 'C04gen.v')),
 }
 # Props files that are obligations of several properties (not named after one)
 SHARED_PROPS = {'ReadGen.v': READER_PROPS}
